@@ -435,7 +435,14 @@ func runSrcFamilyN(c *vf.Check, cases []srcCase, callsOf func(i int) int, o srcO
 	if !(o.Opt || o.By) {
 		plain = nil
 	}
-	u := unitSpec{N: np, PerPkg: o.PerPkg, Stage: o.Stage, Hdr: hdr, Files: extraFiles, Plain: plain,
+	stub := "import (\n\t\"github.com/goghcrow/go-co/seq\"\n\t\"scratch/rt\"\n)\n\nvar All = map[int]func(*rt.Rec, int, int) seq.Iterator[int]{}"
+	if o.Box {
+		stub = strings.Replace(stub, "seq.Iterator[int]", "seq.Iterator["+boxElem(o)+"]", 1)
+	}
+	if o.By {
+		stub = "import \"scratch/rt\"\n\nvar All = map[int]func(*rt.Rec, int, int) int{}"
+	}
+	u := unitSpec{N: np, PerPkg: o.PerPkg, Stage: o.Stage, Hdr: hdr, Files: extraFiles, Plain: plain, Stub: stub,
 		File: func(i int) string {
 			if o.By {
 				return coR.byFunc(fmt.Sprintf("B%d", i), arr(run.Progs[i]))
@@ -542,6 +549,7 @@ type unitSpec struct {
 	File   func(i int) string                  // declarations of unit i (file p<i>_co.go)
 	All    func(pkg string, live []int) string // registration file all_co.go for the units still alive
 	Files  map[string]string                   // extra (non-Go) files of every package, name -> content
+	Stub   string                              // declarations of an EMPTY registration (untagged world) for a package whose shared file makes the compiler fail; "" = machinery error
 	Plain  func(pkg string, live []int) string // optional ordinary (untagged, not processed) Go file plain.go of the package
 }
 
@@ -633,6 +641,26 @@ func compileUnits(c *vf.Check, dir string, u unitSpec) (status []string, npk int
 				}
 			}
 			if culprit < 0 || culprit >= u.N {
+				if j := strings.LastIndex(out[:max(i, 0)], "visit file: "); i >= 0 && j >= 0 && strings.Contains(strings.SplitN(out[j:], "\n", 2)[0], "all_co.go") {
+					// the compiler fails on the package's shared file (registration + extra declarations):
+					// every program of the package is without output
+					if u.Stub == "" {
+						setFatal("the compiler fails on the shared file of a package: " + msg)
+						return
+					}
+					mu.Lock()
+					for p := pk * u.PerPkg; p < (pk+1)*u.PerPkg && p < u.N; p++ {
+						if status[p] == "" {
+							status[p] = "panic: " + msg + " (in the shared file all_co.go of the package)"
+						}
+					}
+					// the package is replaced by an empty registration so that everything else still builds
+					os.RemoveAll(d)
+					os.RemoveAll(d + "_tmp")
+					writeFile(filepath.Join(d, "stub.go"), "package "+pkgName(pk)+"\n\n"+u.Stub+"\n")
+					mu.Unlock()
+					return
+				}
 				setFatal("cannot attribute compiler failure to a program: " + msg)
 				return
 			}
